@@ -157,11 +157,11 @@ def gen_server_program(rng):
 
 
 def gen_config(rng, allow_uri_append=False, allow_static_param=True, rsa=None):
-    ndom = rng.choice([1, 1, 2, 3])
+    ndom = rng.choice([1, 1, 2, 3]) if not allow_uri_append else rng.choice([1, 2, 2, 3])
     uris = []
     while len(uris) < ndom:
         u = "/" + "/".join(_word(rng, 1, 8) for _ in range(rng.choice([1, 1, 2]))) + rng.choice(["", ".js", ".php", ".gif"])
-        if uris and rng.random() < 0.35:
+        if uris and rng.random() < (0.6 if allow_uri_append else 0.35):
             # get URIs may be prefixes of one another (/api and /api/v2): routing is by prefix, uri-append data follows
             u = rng.choice(uris) + rng.choice(["/", "", "-"]) + _word(rng, 1, 5)
         if u not in uris:
